@@ -166,6 +166,7 @@ def _tie_normal_form(mod, fn, cls=None, stack=()):
     a = fn.args
     local = {x.arg for x in a.args + a.kwonlyargs} | ({a.vararg.arg} if a.vararg else set()) | ({a.kwarg.arg} if a.kwarg else set())
     lists = set()
+    nested = {n.name for n in ast.walk(fn) if isinstance(n, ast.FunctionDef) and n is not fn}
     for n in ast.walk(fn):
         if isinstance(n, (ast.Assign, ast.AugAssign, ast.For, ast.comprehension, ast.With, ast.NamedExpr)):
             tg = n.targets if isinstance(n, ast.Assign) else [getattr(n, "target", None)]
@@ -245,13 +246,16 @@ def _tie_normal_form(mod, fn, cls=None, stack=()):
             root, parts = dotted(n.func)
             if tgt is not None:
                 inline(tgt[0], tgt[1], (tgt[1], tgt[0].name))
+            elif isinstance(n.func, ast.Name) and n.func.id in nested:
+                pass                                 # a helper defined inside this function: its body is part of the function, its name is a local
             elif parts[-1:] == ["warn"]:
                 atoms.add("call:.warn")
                 return                               # warning texts are not part of the tie
             elif parts[-1:] in (["append"], ["extend"]) and root in lists:
                 pass                                 # building a local list: comprehension or loop, the same thing
             else:
-                name = (("." + parts[-1]) if parts and (root is None or root in local or root in ("self", "cls")) else ".".join([root or "?"] + parts))
+                priv_global = root is not None and root.startswith("_") and root in mod.globals      # its value is inlined below, its name is not a fact
+                name = (("." + parts[-1]) if parts and (root is None or root in local or root in ("self", "cls") or priv_global) else ".".join([root or "?"] + parts))
                 cargs = [r for r in (_const_repr(x) for x in n.args) if r is not None]
                 kws = [k.arg + ("=" + _const_repr(k.value) if _const_repr(k.value) is not None else "") for k in n.keywords if k.arg]
                 atoms.add("call:" + name + "".join(":" + x for x in cargs + sorted(kws)))
@@ -359,12 +363,49 @@ def _tie_signature(fn):
     return out
 
 
+def _walk_nomsg(node):
+    """ast.walk without the arguments of `raise …(…)` and `….warn(…)`: message texts are not facts about the format"""
+    import ast
+    todo = [node]
+    while todo:
+        n = todo.pop(0)
+        yield n
+        if isinstance(n, ast.Raise):
+            continue
+        if isinstance(n, ast.Call) and isinstance(n.func, ast.Attribute) and n.func.attr == "warn":
+            continue
+        todo.extend(ast.iter_child_nodes(n))
+
+
+def _with_private(mod, fn):
+    """nodes of a function together with those of the private globals and private helpers of the module it uses (message texts left out)"""
+    import ast
+    seen, todo, nodes = set(), [fn], []
+    while todo:
+        f = todo.pop()
+        for n in _walk_nomsg(f):
+            nodes.append(n)
+            if isinstance(n, ast.Name) and n.id.startswith("_") and n.id not in seen:
+                seen.add(n.id)
+                if n.id in mod.globals:
+                    todo.append(mod.globals[n.id])
+                elif n.id in mod.funcs:
+                    todo.append(mod.funcs[n.id])
+    return nodes
+
+
 def _tie_find(mod, pred, what, cls=None):
-    """the one function of a module (or class) whose body satisfies pred: helpers are found by what they contain"""
-    cands = [(q, f) for q, f in mod.all_functions() if (cls is None or q.startswith(cls + ".")) and pred(f)]
-    if len(cands) != 1:
-        raise ValueError(f"{what}: expected exactly one function of that shape, found {[q for q, _ in cands]}")
-    return cands[0]
+    """the one function of a module (or class) whose body satisfies pred: helpers are found by what they contain.
+    `pred` may be a list of predicates: the first one that singles out exactly one function wins (a restructured helper is
+    still found by a second trait); a predicate sees the function node and may use `_with_private(mod, f)`."""
+    preds = pred if isinstance(pred, (list, tuple)) else [pred]
+    found = []
+    for p in preds:
+        cands = [(q, f) for q, f in mod.all_functions() if (cls is None or q.startswith(cls + ".")) and p(f)]
+        if len(cands) == 1:
+            return cands[0]
+        found.append([q for q, _ in cands])
+    raise ValueError(f"{what}: expected exactly one function of that shape, found {found[0] if len(found) == 1 else found}")
 
 
 def _tie_facts(src_root):
@@ -385,7 +426,7 @@ def _tie_facts(src_root):
         fps[m] = rows
 
     def W(fn):
-        return list(ast.walk(fn))
+        return list(_walk_nomsg(fn))
 
     def strs(fn, maxlen):
         return [n.value for n in W(fn) if isinstance(n, ast.Constant) and isinstance(n.value, str) and 0 < len(n.value) <= maxlen]
@@ -404,96 +445,137 @@ def _tie_facts(src_root):
         return [n.left.value for n in nodes if isinstance(n, ast.BinOp) and isinstance(n.op, ast.Add) and isinstance(n.left, ast.Constant) and isinstance(n.left.value, str)]
 
     def with_globals(mod, fn):
-        """nodes of a function together with those of the private globals and private helpers it uses"""
-        seen, todo, nodes = set(), [fn], []
-        while todo:
-            f = todo.pop()
-            for n in ast.walk(f):
-                nodes.append(n)
-                if isinstance(n, ast.Name) and n.id.startswith("_") and n.id not in seen:
-                    seen.add(n.id)
-                    if n.id in mod.globals:
-                        todo.append(mod.globals[n.id])
-                    elif n.id in mod.funcs:
-                        todo.append(mod.funcs[n.id])
-        return nodes
+        return _with_private(mod, fn)
+
+    def in_order(nodes):
+        return sorted((n for n in nodes if hasattr(n, "lineno")), key=lambda n: (n.lineno, n.col_offset))
+
+    # a fact that cannot be found any more does not stop the extraction: it gets a value no source can have, so that exactly the
+    # NAMED obligation about it breaks (and the reason is written next to it in Gen/C12.lean)
+    missing = []
+    SENTINEL = {"char": "?", "str": "<not found>", "strs": ["<not found>"], "nat": 0, "nats": [], "int": 0}
+
+    def fact(name, kind, thunk):
+        try:
+            facts[name] = thunk()
+        except Exception as e:  # noqa: BLE001
+            facts[name] = SENTINEL[kind]
+            missing.append(f"{name}: {type(e).__name__}: {e}")
 
     fa, fq = mods["fasta_file"], mods["fastq_file"]
     fa_nodes = [n for _, f in fa.all_functions() for n in with_globals(fa, f)]
-    facts["fastaHeaderPrefix"] = one(add_left(fa_nodes), "FASTA header prefix ('>' + header)")
-    ch = sorted(set(cmp_sub0(fa_nodes)))
-    if facts["fastaHeaderPrefix"] not in ch or len(ch) != 2:
-        raise ValueError(f"FASTA line-start tests: expected the header prefix and one comment character, found {ch}")
+    fact("fastaHeaderPrefix", "char", lambda: one(add_left(fa_nodes), "FASTA header prefix ('>' + header)"))
+
+    def fasta_comment():
+        ch = sorted(set(cmp_sub0(fa_nodes)))
+        if facts["fastaHeaderPrefix"] not in ch or len(ch) != 2:
+            raise ValueError(f"FASTA line-start tests: expected the header prefix and one comment character, found {ch}")
+        return next(c for c in ch if c != facts["fastaHeaderPrefix"])
     facts["fastaHeaderChar"] = facts["fastaHeaderPrefix"]
-    facts["fastaCommentChar"] = next(c for c in ch if c != facts["fastaHeaderPrefix"])
+    fact("fastaCommentChar", "char", fasta_comment)
     fq_nodes = [n for _, f in fq.all_functions() for n in with_globals(fq, f)]
-    facts["fastqIdPrefix"] = one(add_left(fq_nodes), "FASTQ identifier prefix ('@' + identifier)")
-    facts["fastqLineStartChars"] = sorted(set(cmp_sub0(fq_nodes)))
-    guards = [(type(x.ops[0]).__name__, x.comparators[0].value) for n in fq_nodes if isinstance(n, ast.BinOp) and isinstance(n.op, ast.BitOr)
-              for x in (n.left, n.right) if isinstance(x, ast.Compare) and isinstance(x.comparators[0], ast.Constant)]
-    guards = sorted(set(guards))
-    if sorted(o for o, _ in guards) != ["Gt", "Lt"]:
-        raise ValueError(f"score range guard not of the form (x < lo) | (x > hi): {guards}")
-    facts["scoreLo"] = next(v for o, v in guards if o == "Lt")
-    facts["scoreHi"] = next(v for o, v in guards if o == "Gt")
-    _, enc = _tie_find(fq, lambda f: any(isinstance(n, ast.Attribute) and n.attr == "tobytes" for n in ast.walk(f)), "FASTQ score encoder (…tobytes())")
-    _, dec = _tie_find(fq, lambda f: any(isinstance(n, ast.Attribute) and n.attr == "frombuffer" for n in ast.walk(f)), "FASTQ score decoder (np.frombuffer)")
+    fact("fastqIdPrefix", "char", lambda: one(add_left(fq_nodes), "FASTQ identifier prefix ('@' + identifier)"))
+    fact("fastqLineStartChars", "strs", lambda: sorted(set(cmp_sub0(fq_nodes))))
+
+    def score_guards():
+        # (x < lo) | (x > hi)  elementwise, or  x.min() < lo or x.max() > hi : both are a disjunction of two comparisons with integer literals
+        ors = [(n.left, n.right) for n in fq_nodes if isinstance(n, ast.BinOp) and isinstance(n.op, ast.BitOr)]
+        ors += [tuple(n.values) for n in fq_nodes if isinstance(n, ast.BoolOp) and isinstance(n.op, ast.Or)]
+        gs = sorted({(type(x.ops[0]).__name__, x.comparators[0].value) for pair in ors for x in pair if isinstance(x, ast.Compare) and len(x.ops) == 1
+                     and isinstance(x.ops[0], (ast.Lt, ast.Gt)) and isinstance(x.comparators[0], ast.Constant) and isinstance(x.comparators[0].value, int)})
+        if sorted(o for o, _ in gs) != ["Gt", "Lt"]:
+            raise ValueError(f"score range guard not of the form (x < lo) | (x > hi): {gs}")
+        return gs
+    fact("scoreLo", "int", lambda: next(v for o, v in score_guards() if o == "Lt"))
+    fact("scoreHi", "int", lambda: next(v for o, v in score_guards() if o == "Gt"))
 
     def dtypes(f):
         return sorted({(n.attr if isinstance(n, ast.Attribute) else n.id) for c in ast.walk(f) if isinstance(c, ast.Call) for n in list(c.args) + [k.value for k in c.keywords]
                        if (isinstance(n, ast.Attribute) and n.attr.startswith(("int", "uint"))) or (isinstance(n, ast.Name) and n.id == "int")})
-    facts["scoreDtypes"] = dtypes(enc) + ["|"] + dtypes(dec)
+
+    def score_dtypes():
+        _, enc = _tie_find(fq, _PRIV_PREDS["fastq.encode"], "FASTQ score encoder (…tobytes())")
+        _, dec = _tie_find(fq, _PRIV_PREDS["fastq.decode"], "FASTQ score decoder (np.frombuffer)")
+        return dtypes(enc) + ["|"] + dtypes(dec)
+    fact("scoreDtypes", "strs", score_dtypes)
 
     an, sq, gf = mods["gb_annotation"], mods["gb_sequence"], mods["gb_file"]
 
     def regexes(mod):
-        return [c.args[0].value for _, f in mod.all_functions() for c in ast.walk(f) if isinstance(c, ast.Call) and isinstance(c.func, ast.Attribute)
+        # compiled inside a function or once at module level
+        roots = [f for _, f in mod.all_functions()] + list(mod.globals.values())
+        return [c.args[0].value for r in roots for c in ast.walk(r) if isinstance(c, ast.Call) and isinstance(c.func, ast.Attribute)
                 and c.func.attr == "compile" and c.args and isinstance(c.args[0], ast.Constant)]
-    facts["qualifierRegex"] = one(regexes(an), "qualifier regex (re.compile in genbank/annotation.py)")
-    facts["originRegex"] = one(regexes(sq), "ORIGIN regex (re.compile in genbank/sequence.py)")
-    facts["originNumberFormat"] = one([v for _, f in sq.all_functions() for v in strs(f, 12) if "{" in v and "}" in v and "d" in v], "position number format of set_sequence")
-    sw = [c.args[0] for _, f in an.all_functions() for c in ast.walk(f) if isinstance(c, ast.Call) and isinstance(c.func, ast.Attribute) and c.func.attr == "startswith" and c.args]
-    facts["locKeywords"] = sorted({e.value for x in sw for e in (x.elts if isinstance(x, ast.Tuple) else [x]) if isinstance(e, ast.Constant)})
-    _, single = _tie_find(an, lambda f: sum(1 for n in ast.walk(f) if isinstance(n, ast.Compare) and isinstance(n.ops[0], ast.In) and isinstance(n.left, ast.Constant)
-                                             and n.left.value in ("..", ".", "^")) >= 3, "the location parser that tests the separators")
-    facts["locSeparators"] = [n.left.value for n in ast.walk(single) if isinstance(n, ast.Compare) and isinstance(n.ops[0], ast.In) and isinstance(n.left, ast.Constant)]   # order = precedence
-    _, prn = _tie_find(an, lambda f: any(isinstance(n, ast.Constant) and isinstance(n.value, str) and n.value == "complement(" for n in ast.walk(f)), "the location printer (f-string 'complement(')")
-    facts["locPrintLiterals"] = sorted({v for v in strs(prn, 12) if v.strip() and " " not in v.strip()})
-    _, tl = _tie_find(gf, lambda f: any(isinstance(n, ast.FormattedValue) and n.format_spec is not None for n in ast.walk(f)), "GenBankFile field writer (format spec of the name column)")
-    facts["gbLimits"] = sorted({n.comparators[0].value for n in W(tl) if isinstance(n, ast.Compare) and isinstance(n.ops[0], ast.Gt)
-                                and isinstance(n.comparators[0], ast.Constant) and isinstance(n.comparators[0].value, int)}, reverse=True)
-    facts["gbNameColumn"] = one([int(n.format_spec.values[0].value) for n in W(tl) if isinstance(n, ast.FormattedValue) and n.format_spec is not None
-                                 and n.format_spec.values and isinstance(n.format_spec.values[0], ast.Constant) and str(n.format_spec.values[0].value).isdigit()], "name column width")
-    facts["gbHeaderPad"] = one([n.right.value for n in W(tl) if isinstance(n, ast.BinOp) and isinstance(n.op, ast.Mult) and isinstance(n.right, ast.Constant)], "padding of the FEATURES header")
-    gb_nodes = [n for q, f in gf.all_functions() if q.startswith("GenBankFile.") for n in ast.walk(f)]
-    facts["gbSliceWidths"] = sorted({x.value for n in gb_nodes if isinstance(n, ast.Slice) for x in (n.lower, n.upper) if isinstance(x, ast.Constant) and isinstance(x.value, int)}
-                                    | {k.value.value for n in gb_nodes if isinstance(n, ast.Call) for k in n.keywords if k.arg == "indent" and isinstance(k.value, ast.Constant)})
-    facts["gbTerminator"] = one([n.value for _, f in gf.all_functions() for n in ast.walk(f) if isinstance(n, ast.Constant) and isinstance(n.value, str) and n.value.strip() == "//"], "terminator literal")
+    fact("qualifierRegex", "str", lambda: one(regexes(an), "qualifier regex (re.compile in genbank/annotation.py)"))
+    fact("originRegex", "str", lambda: one(regexes(sq), "ORIGIN regex (re.compile in genbank/sequence.py)"))
+    fact("originNumberFormat", "str", lambda: one([v for _, f in sq.all_functions() for v in strs(f, 12) if "{" in v and "}" in v and "d" in v], "position number format of set_sequence"))
+
+    def loc_keywords():
+        sw = [c.args[0] for _, f in an.all_functions() for c in ast.walk(f) if isinstance(c, ast.Call) and isinstance(c.func, ast.Attribute) and c.func.attr == "startswith" and c.args]
+        return sorted({e.value for x in sw for e in (x.elts if isinstance(x, ast.Tuple) else [x]) if isinstance(e, ast.Constant)})
+    fact("locKeywords", "strs", loc_keywords)
+
+    def loc_separators():
+        # the parser of one location: the private function that mentions the separators and calls int(); the order in which
+        # the separators first appear in it is the order they are looked for (`'..' in s` … elif …, or a loop over a literal table)
+        seps = ("..", ".", "^")
+        def is_parser(f):
+            ns = W(f)
+            return ({".." , "^"} <= {n.value for n in ns if isinstance(n, ast.Constant) and isinstance(n.value, str)}
+                    and any(isinstance(c, ast.Call) and getattr(c.func, "id", "") == "int" for c in ns))
+        _, single = _tie_find(an, is_parser, "the location parser that tests the separators")
+        return list(dict.fromkeys(n.value for n in in_order(W(single)) if isinstance(n, ast.Constant) and isinstance(n.value, str) and n.value in seps))
+    fact("locSeparators", "strs", loc_separators)
+
+    def loc_print_literals():
+        _, prn = _tie_find(an, _PRIV_PREDS["gb.loc_print"], "the location printer (f-string 'complement(')")
+        return sorted({v for v in strs(prn, 12) if v.strip() and " " not in v.strip()})
+    fact("locPrintLiterals", "strs", loc_print_literals)
+
+    def field_writer():
+        return _tie_find(gf, lambda f: any(isinstance(n, ast.FormattedValue) and n.format_spec is not None for n in ast.walk(f)), "GenBankFile field writer (format spec of the name column)")[1]
+    fact("gbLimits", "nats", lambda: sorted({n.comparators[0].value for n in W(field_writer()) if isinstance(n, ast.Compare) and isinstance(n.ops[0], ast.Gt)
+                                             and isinstance(n.comparators[0], ast.Constant) and isinstance(n.comparators[0].value, int)}, reverse=True))
+    fact("gbNameColumn", "nat", lambda: one([int(n.format_spec.values[0].value) for n in W(field_writer()) if isinstance(n, ast.FormattedValue) and n.format_spec is not None
+                                             and n.format_spec.values and isinstance(n.format_spec.values[0], ast.Constant) and str(n.format_spec.values[0].value).isdigit()], "name column width"))
+    fact("gbHeaderPad", "nat", lambda: one([n.right.value for n in W(field_writer()) if isinstance(n, ast.BinOp) and isinstance(n.op, ast.Mult) and isinstance(n.right, ast.Constant)], "padding of the FEATURES header"))
+    gb_nodes = [n for q, f in gf.all_functions() if q.startswith("GenBankFile.") for n in _walk_nomsg(f)]
+    fact("gbSliceWidths", "nats", lambda: sorted({x.value for n in gb_nodes if isinstance(n, ast.Slice) for x in (n.lower, n.upper) if isinstance(x, ast.Constant) and isinstance(x.value, int)}
+                                                 | {k.value.value for n in gb_nodes if isinstance(n, ast.Call) for k in n.keywords if k.arg == "indent" and isinstance(k.value, ast.Constant)}))
+    fact("gbTerminator", "str", lambda: one([n.value for _, f in gf.all_functions() for n in _walk_nomsg(f) if isinstance(n, ast.Constant) and isinstance(n.value, str) and n.value.strip() == "//"], "terminator literal"))
     g = mods["gff_file"]
-    gi = g.classes["GFFFile"]["__getitem__"]
-    facts["gffColumns"] = one([n.comparators[0].value for n in W(gi) if isinstance(n, ast.Compare) and isinstance(n.left, ast.Call)
-                               and getattr(n.left.func, "id", "") == "len" and isinstance(n.comparators[0], ast.Constant)], "column count of GFFFile.__getitem__")
-    facts["gffGetitemLiterals"] = sorted({n.value for n in with_globals(g, gi) if isinstance(n, ast.Constant) and isinstance(n.value, str) and 0 < len(n.value) <= 2})
-    _, cl = _tie_find(g, lambda f: any(isinstance(c, ast.Call) and isinstance(c.func, ast.Attribute) and c.func.attr == "join" and isinstance(c.func.value, ast.Constant)
-                                        and c.func.value.value == "\t" for c in ast.walk(f)), "the GFF line writer ('\\t'.join)")
-    facts["gffCreateLineLiterals"] = sorted({n.value for n in with_globals(g, cl) if isinstance(n, ast.Constant) and isinstance(n.value, str) and 0 < len(n.value) <= 3 and n.value != "%;=&,"})
-    _, ix = _tie_find(g, lambda f: any(isinstance(n, ast.Compare) and any(isinstance(c, ast.Constant) and c.value == "FASTA" for c in n.comparators) for n in ast.walk(f)), "the GFF line indexer (== 'FASTA')")
-    facts["gffIndexLiterals"] = sorted({n.value for n in with_globals(g, ix) if isinstance(n, ast.Constant) and isinstance(n.value, str) and 0 < len(n.value) <= 5})
-    init = g.classes["GFFFile"]["__init__"]
-    facts["gffInitDirective"] = [x.value for c in W(init) if isinstance(c, ast.Call) and getattr(c.func, "attr", "") == "append_directive" for x in c.args]
+    gi = g.classes.get("GFFFile", {}).get("__getitem__")
+    fact("gffColumns", "nat", lambda: one([n.comparators[0].value for n in W(gi) if isinstance(n, ast.Compare) and isinstance(n.left, ast.Call)
+                                           and getattr(n.left.func, "id", "") == "len" and isinstance(n.comparators[0], ast.Constant)], "column count of GFFFile.__getitem__"))
+    fact("gffGetitemLiterals", "strs", lambda: sorted({n.value for n in with_globals(g, gi) if isinstance(n, ast.Constant) and isinstance(n.value, str) and 0 < len(n.value) <= 2}))
+
+    def create_line_literals():
+        _, cl = _tie_find(g, _PRIV_PREDS["gff.create_line"], "the GFF line writer ('\\t'.join)")
+        return sorted({n.value for n in with_globals(g, cl) if isinstance(n, ast.Constant) and isinstance(n.value, str) and 0 < len(n.value) <= 3 and n.value != "%;=&,"})
+    fact("gffCreateLineLiterals", "strs", create_line_literals)
+
+    def index_literals():
+        _, ix = _tie_find(g, lambda f: any(isinstance(n, ast.Compare) and any(isinstance(c, ast.Constant) and c.value == "FASTA" for c in n.comparators) for n in ast.walk(f)), "the GFF line indexer (== 'FASTA')")
+        return sorted({n.value for n in with_globals(g, ix) if isinstance(n, ast.Constant) and isinstance(n.value, str) and 0 < len(n.value) <= 5})
+    fact("gffIndexLiterals", "strs", index_literals)
+    fact("gffInitDirective", "strs", lambda: [x.value for c in W(g.classes["GFFFile"]["__init__"]) if isinstance(c, ast.Call) and getattr(c.func, "attr", "") == "append_directive" for x in c.args])
     gc = mods["gff_convert"]
-    facts["gffIdKey"] = one([n.value for _, f in gc.all_functions() for n in ast.walk(f) if isinstance(n, ast.Constant) and n.value == "ID"], "the 'ID' attribute name in gff/convert.py")
-    p_ann = os.path.join(src_root, "biotite/sequence/annotation.py")
-    dcls = next((c for n in ast.parse(open(p_ann).read()).body if isinstance(n, ast.ClassDef) and n.name == "Location" for c in n.body
-                 if isinstance(c, ast.ClassDef) and c.name == "Defect"), None)
-    if dcls is None:
-        raise ValueError("Location.Defect not found")
-    facts["defectMembers"] = [f"{t.id}={ast.unparse(x.value)}" for x in dcls.body if isinstance(x, ast.Assign) for t in x.targets]
+    fact("gffIdKey", "str", lambda: one([n.value for _, f in gc.all_functions() for n in _walk_nomsg(f) if isinstance(n, ast.Constant) and n.value == "ID"], "the 'ID' attribute name in gff/convert.py"))
+
+    def defect_members():
+        p_ann = os.path.join(src_root, "biotite/sequence/annotation.py")
+        dcls = next((c for n in ast.parse(open(p_ann).read()).body if isinstance(n, ast.ClassDef) and n.name == "Location" for c in n.body
+                     if isinstance(c, ast.ClassDef) and c.name == "Defect"), None)
+        if dcls is None:
+            raise ValueError("Location.Defect not found")
+        return [f"{t.id}={ast.unparse(x.value)}" for x in dcls.body if isinstance(x, ast.Assign) for t in x.targets]
+    fact("defectMembers", "strs", defect_members)
     defs = []
     for m, mod in mods.items():
         for q, fn, _ in mod.public():
             defs += [f"{m}:{q}({x})" for x in _tie_signature(fn) if "=" in x]
     facts["defaults"] = defs
+    facts["_missing"] = missing
     return facts, fps, dump
 
 
@@ -537,62 +619,100 @@ def _tie_lean(facts, fps, dump):
 
 
 def gen_lean():
-    """Everything is found by shape (what an expression contains), not by the private name it is bound to."""
+    """Everything is found by shape (what an expression contains), not by the private name it is bound to.  A fact that is
+    not found gets a value no source can have and a line in `extractionNotes`: the NAMED obligation about it breaks, the
+    extraction as a whole does not."""
     import ast
     import string
     from common import paths
 
+    notes = []
+
     def one(xs, what):
+        xs = list(dict.fromkeys(xs))
         if len(xs) != 1:
             raise ValueError(f"{what}: expected exactly one, found {len(xs)}")
         return xs[0]
 
-    g = _TieModule(os.path.join(paths.SRC, "biotite/sequence/io/gff/file.py"))
-    nq = one([v for v in g.globals.values() if any(isinstance(n, ast.Attribute) and n.attr == "punctuation" for n in ast.walk(v))],
-             "module-level global of gff/file.py built from string.punctuation (the `safe` set of quote)")
-    # evaluate the defining expression with nothing but `string` in scope (it is a pure str expression)
-    not_quoted = eval(compile(ast.Expression(nq), "gff/file.py", "eval"), {"__builtins__": {}, "string": string})
-    if not isinstance(not_quoted, str):
-        raise ValueError("the safe set of gff/file.py is not a str")
-    # which of the first three columns of the line writer go through quote(): the tie for the `type` fix
-    _, fn = _tie_find(g, lambda f: any(isinstance(c, ast.Call) and isinstance(c.func, ast.Attribute) and c.func.attr == "join" and isinstance(c.func.value, ast.Constant)
-                                       and c.func.value.value == "\t" for c in ast.walk(f)), "the GFF line writer ('\\t'.join)")
-    params = [x.arg for x in fn.args.args][:3]
-    if params != ["seqid", "source", "type"]:
-        raise ValueError(f"the GFF line writer no longer starts with the columns seqid, source, type: {params}")
-    quoted = []
-    for n in ast.walk(fn):
-        if isinstance(n, ast.Assign) and isinstance(n.targets[0], ast.Name) and n.targets[0].id in params:
-            if any(isinstance(c, ast.Call) and getattr(c.func, "id", "") == "quote" for c in ast.walk(n.value)):
-                quoted.append(n.targets[0].id)
-    q = _TieModule(os.path.join(paths.SRC, "biotite/sequence/io/fastq/file.py"))
-    offsets = ast.literal_eval(one([v for v in q.globals.values() if isinstance(v, ast.Dict) and v.keys and all(isinstance(k, ast.Constant) and isinstance(k.value, str) for k in v.keys)
-                                    and all(isinstance(x, ast.Constant) and isinstance(x.value, int) for x in v.values)], "the name -> offset dict of fastq/file.py"))
-    an = _TieModule(os.path.join(paths.SRC, "biotite/sequence/io/genbank/annotation.py"))
-    ints = sorted(v.value for v in an.globals.values() if isinstance(v, ast.Constant) and isinstance(v.value, int) and not isinstance(v.value, bool))
-    if len(ints) != 2:
-        raise ValueError(f"genbank/annotation.py: expected two integer column constants (key start, qualifier start), found {ints}")
-    key_start, qual_start = ints
-    sq = _TieModule(os.path.join(paths.SRC, "biotite/sequence/io/genbank/sequence.py"))
-    int_globals = {k: v.value for k, v in sq.globals.items() if isinstance(v, ast.Constant) and isinstance(v.value, int) and not isinstance(v.value, bool)}
-    if len(int_globals) != 2:
-        raise ValueError(f"genbank/sequence.py: expected two integer constants (symbols per chunk, chunks per line), found {int_globals}")
-    _, wr = _tie_find(sq, lambda f: any(isinstance(c, ast.Call) and getattr(c.func, "id", "") == "range" and len(c.args) == 3 for c in ast.walk(f)), "the ORIGIN writer (range with a step)")
-    step = one([c.args[2].id for c in ast.walk(wr) if isinstance(c, ast.Call) and getattr(c.func, "id", "") == "range" and len(c.args) == 3 and isinstance(c.args[2], ast.Name)],
-               "step of the chunk loop of the ORIGIN writer")
-    if step not in int_globals:
-        raise ValueError("the step of the chunk loop is not one of the integer constants")
-    chunk = int_globals[step]
-    chunks = one([v for k, v in int_globals.items() if k != step], "chunks per line")
-    prod = [v for v in sq.globals.values() if isinstance(v, ast.BinOp) and isinstance(v.op, ast.Mult) and all(isinstance(x, ast.Name) and x.id in int_globals for x in (v.left, v.right))]
-    per_line = chunk * chunks if len(prod) == 1 else one([], "symbols per line as the product of the two constants")
+    def guarded(name, default, thunk):
+        try:
+            return thunk()
+        except Exception as e:  # noqa: BLE001
+            notes.append(f"{name}: {type(e).__name__}: {e}")
+            return default
+
+    def mod(rel):
+        return _TieModule(os.path.join(paths.SRC, rel))
+
+    def not_quoted():
+        g = mod("biotite/sequence/io/gff/file.py")
+        nq = one([v for v in g.globals.values() if any(isinstance(n, ast.Attribute) and n.attr == "punctuation" for n in ast.walk(v))],
+                 "module-level global of gff/file.py built from string.punctuation (the `safe` set of quote)")
+        # evaluate the defining expression with nothing but `string` in scope (it is a pure str expression)
+        val = eval(compile(ast.Expression(nq), "gff/file.py", "eval"), {"__builtins__": {}, "string": string})
+        if not isinstance(val, str):
+            raise ValueError("the safe set of gff/file.py is not a str")
+        return val
+
+    def quoted_columns():
+        # which of the first three columns of the line writer go through quote(): the tie for the `type` fix
+        g = mod("biotite/sequence/io/gff/file.py")
+        _, fn = _tie_find(g, _PRIV_PREDS["gff.create_line"], "the GFF line writer ('\\t'.join)")
+        params = [x.arg for x in fn.args.args][:3]
+        if params != ["seqid", "source", "type"]:
+            raise ValueError(f"the GFF line writer no longer starts with the columns seqid, source, type: {params}")
+        quoted = []
+        for n in ast.walk(fn):
+            if isinstance(n, ast.Assign) and isinstance(n.targets[0], ast.Name) and n.targets[0].id in params:
+                if any(isinstance(c, ast.Call) and getattr(c.func, "id", "") == "quote" for c in ast.walk(n.value)):
+                    quoted.append(n.targets[0].id)
+        return sorted(set(quoted))
+
+    def fastq_offsets():
+        q = mod("biotite/sequence/io/fastq/file.py")
+        return ast.literal_eval(one([v for v in q.globals.values() if isinstance(v, ast.Dict) and v.keys and all(isinstance(k, ast.Constant) and isinstance(k.value, str) for k in v.keys)
+                                     and all(isinstance(x, ast.Constant) and isinstance(x.value, int) for x in v.values)], "the name -> offset dict of fastq/file.py"))
+
+    def feature_columns():
+        an = mod("biotite/sequence/io/genbank/annotation.py")
+        ints = sorted(v.value for v in an.globals.values() if isinstance(v, ast.Constant) and isinstance(v.value, int) and not isinstance(v.value, bool))
+        if len(ints) != 2:
+            raise ValueError(f"genbank/annotation.py: expected two integer column constants (key start, qualifier start), found {ints}")
+        return tuple(ints)
+
+    def origin_columns():
+        sq = mod("biotite/sequence/io/genbank/sequence.py")
+        int_globals = {k: v.value for k, v in sq.globals.items() if isinstance(v, ast.Constant) and isinstance(v.value, int) and not isinstance(v.value, bool)}
+        if len(int_globals) != 2:
+            raise ValueError(f"genbank/sequence.py: expected two integer constants (symbols per chunk, chunks per line), found {int_globals}")
+        # the chunk width is the constant that is the step of a range / the width `i : i + W` of a slice of the sequence text
+        # (the other one only occurs in the product); independent of how the writer loops
+        used = set()
+        for _, f in sq.all_functions():
+            for n in ast.walk(f):
+                if isinstance(n, ast.Call) and getattr(n.func, "id", "") == "range" and len(n.args) == 3 and isinstance(n.args[2], ast.Name):
+                    used.add(n.args[2].id)
+                if isinstance(n, ast.Slice) and isinstance(n.upper, ast.BinOp) and isinstance(n.upper.op, ast.Add):
+                    used |= {x.id for x in (n.upper.left, n.upper.right) if isinstance(x, ast.Name)}
+        step = one(sorted(used & set(int_globals)), "the chunk width (step of the chunk loop / width of the slice) among the integer constants")
+        chunk = int_globals[step]
+        chunks = one([v for k, v in int_globals.items() if k != step], "chunks per line")
+        prod = [v for v in sq.globals.values() if isinstance(v, ast.BinOp) and isinstance(v.op, ast.Mult) and all(isinstance(x, ast.Name) and x.id in int_globals for x in (v.left, v.right))]
+        one(prod, "symbols per line as the product of the two constants")
+        return chunk, chunks, chunk * chunks
+
+    nqs = guarded("notQuoted", "", not_quoted)
+    quoted = guarded("quotedColumns", ["<not found>"], quoted_columns)
+    offsets = guarded("fastqOffsets", {}, fastq_offsets)
+    key_start, qual_start = guarded("keyStart/qualStart", (0, 0), feature_columns)
+    chunk, chunks, per_line = guarded("symbolsPerChunk/chunksPerLine/symbolsPerLine", (0, 0, 0), origin_columns)
     body = [
         "/- REGENERATED on every run by harness/props/c12.py from sequence/io/{gff/file.py, fastq/file.py, genbank/annotation.py, genbank/sequence.py}. Do not edit. -/",
         "namespace BiotiteModel.Gen.C12",
         "/-- character codes of `_NOT_QUOTED` (gff/file.py), the `safe` argument of `urllib.parse.quote`. -/",
-        "def notQuoted : List Nat := [" + ", ".join(str(ord(c)) for c in not_quoted) + "]",
+        "def notQuoted : List Nat := [" + ", ".join(str(ord(c)) for c in nqs) + "]",
         "/-- the columns among seqid/source/type that `_create_line` passes through `quote`. -/",
-        "def quotedColumns : List String := [" + ", ".join(f'"{c}"' for c in sorted(set(quoted))) + "]",
+        "def quotedColumns : List String := [" + ", ".join(f'"{c}"' for c in quoted) + "]",
         "/-- `_OFFSETS` (fastq/file.py): format name ↦ ASCII offset. -/",
         "def fastqOffsets : List (String × Int) := [" + ", ".join(f'("{k}", {int(v)})' for k, v in offsets.items()) + "]",
         "/-- GenBank column constants. -/",
@@ -604,6 +724,14 @@ def gen_lean():
     ]
     facts, fps, dump = _tie_facts(paths.SRC)
     body += _tie_lean(facts, fps, dump)
+    _PRIV_CACHE.clear()
+    helpers = _missing_helpers()
+    body += ["/-- private helpers / globals the adapter and the oracles call directly and that were NOT found by any of their traits",
+             "(the cases that need them are then judged by the oracles alone, or not at all). -/",
+             "def helpersMissing : List String := [" + ", ".join(_lstr(h.split(":")[0]) for h in helpers) + "]"]
+    allnotes = notes + facts.get("_missing", []) + helpers
+    if allnotes:
+        body += ["/- extraction notes (facts that were not found got a value no source can have):"] + [x.replace("-/", "- /").replace("/-", "/ -") for x in allnotes] + ["-/"]
     body += ["end BiotiteModel.Gen.C12", ""]
     return {"BiotiteModel/Gen/C12.lean": "\n".join(body)}
 
@@ -612,59 +740,134 @@ def gen_lean():
 _PRIV_CACHE = {}
 
 
+class _Unavailable(ValueError):
+    """a private helper of biotite the harness wants to call directly was not found by any of its traits"""
+
+
+def _has(f, test):
+    import ast
+    return any(test(n) for n in ast.walk(f))
+
+
+def _mk_priv_preds():
+    import ast
+    call_attr = lambda name: (lambda n: isinstance(n, ast.Call) and getattr(n.func, "attr", "") == name)      # noqa: E731
+    call_id = lambda name: (lambda n: isinstance(n, ast.Call) and getattr(n.func, "id", "") == name)          # noqa: E731
+    const = lambda v: (lambda n: isinstance(n, ast.Constant) and type(n.value) is type(v) and n.value == v)   # noqa: E731
+    tabjoin = lambda n: (isinstance(n, ast.Call) and isinstance(n.func, ast.Attribute) and n.func.attr == "join"   # noqa: E731
+                         and isinstance(n.func.value, ast.Constant) and n.func.value.value == "\t")
+    priv = lambda f: f.name.startswith("_") and not f.name.startswith("__")                                   # noqa: E731
+    return {
+        # each list: traits tried in order, the first that singles out exactly one function wins
+        "fastq.encode": [lambda f: _has(f, lambda n: isinstance(n, ast.Attribute) and n.attr == "tobytes"),
+                         lambda f: priv(f) and _has(f, call_attr("decode")) and _has(f, call_attr("astype"))],
+        "fastq.decode": [lambda f: _has(f, lambda n: isinstance(n, ast.Attribute) and n.attr == "frombuffer"),
+                         lambda f: priv(f) and _has(f, call_attr("encode")) and _has(f, call_attr("astype")),
+                         lambda f: priv(f) and _has(f, call_id("bytearray"))],
+        "gb.loc_print": [lambda f: _has(f, const("complement(")),
+                         lambda f: priv(f) and _has(f, lambda n: isinstance(n, ast.Constant) and isinstance(n.value, str) and "complement" in n.value) and _has(f, call_id("str"))],
+        "gb.loc_parse": [lambda f: _has(f, lambda n: call_attr("startswith")(n) and n.args and isinstance(n.args[0], ast.Tuple)),
+                         lambda f: priv(f) and _has(f, const("complement")) and _has(f, call_attr("startswith"))],
+        "gb.seq_start": [lambda f: priv(f) and _has(f, call_id("int")) and _has(f, call_attr("split")),
+                         lambda f: priv(f) and _has(f, call_id("int")) and len(f.args.args) == 1],
+        "gff.create_line": [lambda f: _has(f, tabjoin),
+                            lambda f: priv(f) and [x.arg for x in f.args.args][-9:-6] == ["seqid", "source", "type"]],
+    }
+
+
+_PRIV_PREDS = _mk_priv_preds()
+_PRIV_WHERE = {
+    "fastq.encode": ("biotite.sequence.io.fastq.file", "biotite/sequence/io/fastq/file.py"),
+    "fastq.decode": ("biotite.sequence.io.fastq.file", "biotite/sequence/io/fastq/file.py"),
+    "gb.loc_print": ("biotite.sequence.io.genbank.annotation", "biotite/sequence/io/genbank/annotation.py"),
+    "gb.loc_parse": ("biotite.sequence.io.genbank.annotation", "biotite/sequence/io/genbank/annotation.py"),
+    "gb.seq_start": ("biotite.sequence.io.genbank.sequence", "biotite/sequence/io/genbank/sequence.py"),
+    "gff.create_line": ("biotite.sequence.io.gff.file", "biotite/sequence/io/gff/file.py"),
+    "gff.safe": ("biotite.sequence.io.gff.file", "biotite/sequence/io/gff/file.py"),
+    "fastq.offsets": ("biotite.sequence.io.fastq.file", "biotite/sequence/io/fastq/file.py"),
+}
+# which private helper an operation of the adapter calls directly; without the helper the cases that use the operation are
+# judged by the oracles alone (no `ops`), and gen_lean() reports the missing helper under the obligation C12_gen_helpers_found
+_OP_NEEDS = {"fq_enc": ["fastq.encode"], "fq_dec": ["fastq.decode"], "loc_rt": ["gb.loc_print", "gb.loc_parse"], "loc_parse": ["gb.loc_parse"],
+             "gff_rt": ["gff.create_line"], "org_read": ["gb.seq_start"]}
+
+
+def _gb_seq_string(lines):
+    """the sequence text of an ORIGIN block through the PUBLIC reader (no private helper needed)"""
+    from biotite.sequence.io.genbank import sequence as gbs
+    return gbs.get_raw_sequence(_GbStub(lines))
+
+
 def _priv(role):
     """A private helper / global of biotite the adapter has to call, found by what it contains (same
-    patterns as the Gen extractor), not by its name: a rename of a private name must not disturb the check."""
+    patterns as the Gen extractor), not by its name: a rename of a private name must not disturb the check.
+    Raises _Unavailable when nothing fits (the callers then abstain; see _missing_helpers)."""
     import ast
     import importlib
     from common import paths
     if role in _PRIV_CACHE:
+        if isinstance(_PRIV_CACHE[role], _Unavailable):
+            raise _PRIV_CACHE[role]
         return _PRIV_CACHE[role]
-    spec = {
-        "fastq.encode": ("biotite.sequence.io.fastq.file", "biotite/sequence/io/fastq/file.py",
-                         lambda f: any(isinstance(n, ast.Attribute) and n.attr == "tobytes" for n in ast.walk(f))),
-        "fastq.decode": ("biotite.sequence.io.fastq.file", "biotite/sequence/io/fastq/file.py",
-                         lambda f: any(isinstance(n, ast.Attribute) and n.attr == "frombuffer" for n in ast.walk(f))),
-        "gb.loc_print": ("biotite.sequence.io.genbank.annotation", "biotite/sequence/io/genbank/annotation.py",
-                         lambda f: any(isinstance(n, ast.Constant) and n.value == "complement(" for n in ast.walk(f))),
-        "gb.loc_parse": ("biotite.sequence.io.genbank.annotation", "biotite/sequence/io/genbank/annotation.py",
-                         lambda f: any(isinstance(c, ast.Call) and getattr(c.func, "attr", "") == "startswith" and c.args and isinstance(c.args[0], ast.Tuple) for c in ast.walk(f))),
-        "gb.seq_string": ("biotite.sequence.io.genbank.sequence", "biotite/sequence/io/genbank/sequence.py",
-                          lambda f: any(isinstance(c, ast.Call) and getattr(c.func, "attr", "") == "compile" for c in ast.walk(f))),
-        "gb.seq_start": ("biotite.sequence.io.genbank.sequence", "biotite/sequence/io/genbank/sequence.py",
-                         lambda f: f.name.startswith("_") and any(isinstance(c, ast.Call) and getattr(c.func, "id", "") == "int" for c in ast.walk(f))
-                         and any(isinstance(c, ast.Call) and getattr(c.func, "attr", "") == "split" for c in ast.walk(f))),
-        "gff.create_line": ("biotite.sequence.io.gff.file", "biotite/sequence/io/gff/file.py",
-                            lambda f: any(isinstance(c, ast.Call) and isinstance(c.func, ast.Attribute) and c.func.attr == "join" and isinstance(c.func.value, ast.Constant)
-                                          and c.func.value.value == "\t" for c in ast.walk(f))),
-    }
+    if role == "gb.seq_string":
+        return _gb_seq_string
     gspec = {
-        "gff.safe": ("biotite.sequence.io.gff.file", "biotite/sequence/io/gff/file.py",
-                     lambda v: any(isinstance(n, ast.Attribute) and n.attr == "punctuation" for n in ast.walk(v))),
-        "fastq.offsets": ("biotite.sequence.io.fastq.file", "biotite/sequence/io/fastq/file.py",
-                          lambda v: isinstance(v, ast.Dict) and v.keys and all(isinstance(k, ast.Constant) and isinstance(k.value, str) for k in v.keys)
-                          and all(isinstance(x, ast.Constant) and isinstance(x.value, int) for x in v.values)),
+        "gff.safe": lambda v: any(isinstance(n, ast.Attribute) and n.attr == "punctuation" for n in ast.walk(v)),
+        "fastq.offsets": lambda v: (isinstance(v, ast.Dict) and v.keys and all(isinstance(k, ast.Constant) and isinstance(k.value, str) for k in v.keys)
+                                    and all(isinstance(x, ast.Constant) and isinstance(x.value, int) for x in v.values)),
     }
-    if role in spec:
-        modname, rel, pred = spec[role]
+    modname, rel = _PRIV_WHERE[role]
+    try:
         mod = _TieModule(os.path.join(paths.SRC, rel))
-        q, _ = _tie_find(mod, pred, role)
-        obj = importlib.import_module(modname)
-        for part in q.split("."):
-            obj = getattr(obj, part)
-    else:
-        modname, rel, pred = gspec[role]
-        mod = _TieModule(os.path.join(paths.SRC, rel))
-        names = [k for k, v in mod.globals.items() if pred(v)]
-        if len(names) != 1:
-            raise ValueError(f"{role}: expected exactly one module-level global of that shape, found {names}")
-        obj = getattr(importlib.import_module(modname), names[0])
+        if role in _PRIV_PREDS:
+            q, _ = _tie_find(mod, _PRIV_PREDS[role], role)
+            obj = importlib.import_module(modname)
+            for part in q.split("."):
+                obj = getattr(obj, part)
+        else:
+            names = [k for k, v in mod.globals.items() if gspec[role](v)]
+            if len(names) != 1:
+                raise ValueError(f"{role}: expected exactly one module-level global of that shape, found {names}")
+            obj = getattr(importlib.import_module(modname), names[0])
+    except Exception as e:  # noqa: BLE001
+        _PRIV_CACHE[role] = _Unavailable(f"{role}: {type(e).__name__}: {e}")
+        raise _PRIV_CACHE[role]
     _PRIV_CACHE[role] = obj
     return obj
 
 
+def _missing_helpers():
+    out = []
+    for role in _PRIV_WHERE:
+        try:
+            _priv(role)
+        except _Unavailable as e:
+            out.append(str(e))
+    return out
+
+
+def _oracle_only_where_helpers_miss(cases):
+    """cases whose operations need a private helper that was not found keep their oracle but lose their `ops`"""
+    gone = {r.split(":")[0] for r in _missing_helpers()}
+    if not gone:
+        return cases
+    out = []
+    for c in cases:
+        ops = c.get("ops") or []
+        if any(set(_OP_NEEDS.get(o.split(" ")[0], [])) & gone for o in ops):
+            c = {k: v for k, v in c.items() if k != "ops"}
+        out.append(c)
+    return out
+
+
 def _safe_codes():
-    return ",".join(str(ord(c)) for c in _priv("gff.safe"))
+    try:
+        safe = _priv("gff.safe")
+    except _Unavailable:
+        # the set the model was written against (gen_lean reports the missing global under C12_gen_helpers_found / C12_gen_not_quoted)
+        import string
+        safe = "".join(c for c in string.punctuation if c not in "%;=&,") + " "
+    return ",".join(str(ord(c)) for c in safe)
 
 
 def g_header(rng, edge=False):
@@ -1418,10 +1621,14 @@ def cases(rng, tier):
     n = 2000 if tier == "quick" else 40000
     fns = [f for f, w in GENS for _ in range(w)]
     for _ in range(n):
-        yield rng.choice(fns)(rng)
+        yield from _oracle_only_where_helpers_miss([rng.choice(fns)(rng)])
 
 
 def corpus():
+    return _oracle_only_where_helpers_miss(_corpus())
+
+
+def _corpus():
     safe = _safe_codes()
     inexpr = [{"key": "misc", "locs": [[7, 7, 0, 0]], "qual": {"note": 'a"b'}}, {"key": "misc", "locs": [[7, 7, 0, 0]], "qual": {"a=b": "v"}}]
     mult = []
@@ -2774,7 +2981,12 @@ def oracle(case):
         return []
     with warnings.catch_warnings():
         warnings.simplefilter("ignore")
-        return ORACLES[spec["o"]](spec)
+        try:
+            return ORACLES[spec["o"]](spec)
+        except _Unavailable:
+            # the oracle wanted to call a private helper directly and it was not found by any trait: it cannot judge this case;
+            # the loss is reported once, by gen_lean(), as the broken obligation C12_gen_helpers_found
+            return []
 
 
 def nontrivial(case, impl_out):
